@@ -41,6 +41,22 @@ def mir_callers(F, callee_substr):
     return out
 
 
+PREFIX_MOD = "prefix_trie::prefix"          # the module that defines the Prefix trait and the shipped impls (incl. sub-modules)
+ARENA_MOD = TABLE.rsplit("::", 1)[0]        # the module that defines the arena (Table / Node) and its unsafe accessor
+
+
+def in_module(F, path, mod):
+    """is the function / closure `path` written inside module `mod` (or a sub-module)?  Layering rules are stated over modules,
+    not files: splitting a module into several files does not change them.  (A trait-impl method's own path starts with its
+    self type; the impl block's path carries the module.)"""
+    base = path.split("::{closure")[0]
+    f = F.fns.get(base)
+    m = (f or {}).get("module")
+    if m is None:
+        return base.startswith(mod + "::")
+    return m == mod or m.startswith(mod + "::")
+
+
 ITER_BENIGN = ("Item", "next", "size_hint")
 
 
